@@ -1,5 +1,5 @@
 From KV Require Import Model.Base Model.Json Model.Schema Model.Request Model.Lookup Model.ParamCodec Model.Defaults
-     Spec.ParamSpec Proofs.C05Proofs.
+     Spec.ParamSpec Proofs.C05Proofs Proofs.C05Object.
 Local Open Scope list_scope.
 
 (* ---- the body stream ---- *)
@@ -125,6 +125,33 @@ Section PD.
     assert (E : populate sprint p frag0 d = ser p (SPrim (sprint d))).
     { unfold populate, ser, frag0. destruct (pd_in p); [congruence| | |]; destruct d; try discriminate; reflexivity. }
     rewrite E. now apply prim_roundtrip.
+  Qed.
+
+  (* an object default is written as the serialisation of its members' texts (every style but
+     deepObject, whose decoder has a model of its own): it decodes back to the members read at the
+     declared types (C05_object_roundtrip) *)
+  Theorem populated_object_reads_back p l decl ms :
+    pd_in p <> LPath ->
+    allowed_cell (pd_in p) (eff_style p) (eff_explode p) = true ->
+    String.eqb (eff_style p) "deepObject" = false ->
+    defined_cell p (SObj (member_texts sprint l)) = true ->
+    shape_of (pd_schema p) = ShObj decl None ->
+    l <> [] -> nodup_s (map fst (member_texts sprint l)) = true -> nodup_s (map fst decl) = true ->
+    Forall (fun t => t <> ""%string) (flat (member_texts sprint l)) ->
+    (pd_in p = LQuery /\ eff_explode p = true \/ clean (obj_sep (pd_in p) (eff_style p) (eff_explode p)) (flat (member_texts sprint l))) ->
+    (eq_form (pd_in p) (eff_explode p) = true -> clean "="%char (flat (member_texts sprint l))) ->
+    members pi64 pi32 pf (member_texts sprint l) decl None = Some ms -> Forall (fun kv => snd kv <> PNil) ms ->
+    exists m, decode_param pi64 pi32 pf p (populate sprint p frag0 (JObj l)) = DRes (PO m) true None /\
+              forall k, assoc k m = assoc k ms.
+  Proof.
+    intros Hp Hall Hdo Hdef Hsh Hne Hnd Hdn Hnn Hcl Heq Hm Hv.
+    assert (E : populate sprint p frag0 (JObj l) = ser p (SObj (member_texts sprint l))).
+    { unfold populate, ser, frag0, flat_pairs, eq_pairs. destruct (pd_in p); [congruence| | |]; cbn [ser_query ser_text f_path f_query f_header f_cookie app].
+      - rewrite Hdo. destruct (eff_explode p); reflexivity.
+      - destruct (eff_explode p); reflexivity.
+      - reflexivity. }
+    rewrite E. apply (object_roundtrip pi64 pi32 pf p (member_texts sprint l) decl ms); try assumption.
+    destruct l; [congruence|discriminate].
   Qed.
 
   (* default-setting is idempotent: once the default of an absent scalar parameter is written, the
